@@ -270,7 +270,34 @@ class C19(Property):
             'def strBreakSet : List Nat := [%s]\n\n'
             'def bytesBreakSet : List Nat := [%s]\n\n'
             'end C19.Generated\n' % (', '.join(map(str, sset)), ', '.join(map(str, bset))))
+        self._eof_ok = self.probe_align_eof()
+        C19.EOF_OK = self._eof_ok
+        out['C19_RelSeek.lean'] = (
+            "/- GENERATED by harness/bv/props/c19.py (regen) by running JSONLIterator(rel_seek=0.9) on the text file '1\\n2'\n"
+            '   under a time limit - do not edit.\n'
+            '   alignStopsAtEof : does _align_to_newline return (standing at the end of the file) when no line break\n'
+            "                     follows the target?  false: it reads '' for ever there (the case is then outside the model's domain) -/\n"
+            'namespace C19.Generated\n\n'
+            'def alignStopsAtEof : Bool := %s\n\n'
+            'end C19.Generated\n' % ('true' if self._eof_ok else 'false'))
         return out
+
+    EOF_OK = False
+
+    @staticmethod
+    def probe_align_eof():
+        """does JSONLIterator(rel_seek=r) come back when no line break follows int(size*r)?  (the code as it is reads
+        '' for ever there; with the repair proposed on r3-c19-work it stays at the end of the file)"""
+        from boltons.jsonutils import JSONLIterator
+        try:
+            with time_limit(1.5):
+                f = io.TextIOWrapper(io.BytesIO(b'1\n2'), encoding='utf-8')
+                fwd = list(JSONLIterator(f, rel_seek=0.9))
+                f = io.TextIOWrapper(io.BytesIO(b'1\n2'), encoding='utf-8')
+                rev = list(JSONLIterator(f, rel_seek=0.9, reverse=True))
+            return fwd == [] and rev == [2, 1]
+        except (Exception, CaseTimeout):
+            return False
 
     @staticmethod
     def probe_text_lstrip():
@@ -372,7 +399,8 @@ class C19(Property):
         lset, rset = getattr(self, '_strip', ([], []))
         sset, bset = getattr(self, '_pysplit', ([], []))
         want = ('E' + show_lines(alts, show_cps) + ' L' + show_cps(lset) + ' R' + show_cps(rset)
-                + ' T' + show_cps(getattr(self, '_tset', [])) + ' S' + show_cps(sset) + ' B' + show_cps(bset))
+                + ' T' + show_cps(getattr(self, '_tset', [])) + ' S' + show_cps(sset) + ' B' + show_cps(bset)
+                + ' Z' + ('1' if getattr(self, '_eof_ok', False) else '0'))
         if got != want:
             raise InfraError('driver was built with tables %s, translator read %s' % (got, want))
         return []
@@ -740,7 +768,7 @@ class C19(Property):
         if num == 0:
             return True
         t = C19.js_target(c, num, den)
-        return any(b in (10, 13) for b in c[t:])
+        return C19.EOF_OK or any(b in (10, 13) for b in c[t:])
 
     def small_js(self, nlines, extra=False):
         i = 0
@@ -752,8 +780,8 @@ class C19(Property):
                     yield {'k': 'js', 'c': hx(c), 'num': num, 'den': den, 'ign': 1, 'mode': 't'}
         for n in range(1, nlines + 1):
             for toks in itertools.product(self.JS_TOKENS, repeat=n):
-                for sep in (b'\n', b'\r\n'):
-                    c = sep.join(toks) + sep
+                for sep, end in ((b'\n', b'\n'), (b'\r\n', b'\r\n'), (b'\n', b'')):
+                    c = sep.join(toks) + end
                     for num, den in self.JS_FRACTIONS:
                         if not self.js_in_domain(c, num, den):
                             continue
@@ -769,6 +797,8 @@ class C19(Property):
             lines = [rng.choice(self.JS_TOKENS if rng.random() < 0.4 else self.JS_TOKENS[:3])
                      for _ in range(rng.randint(1, 10))]
             c = b''.join(l + (sep if rng.random() < 0.9 else rng.choice([b'\n', b'\r\n', b'\n\n', b'\r'])) for l in lines)
+            if rng.random() < 0.3:     # no final line break: a target inside the last line has no line break after it
+                c = c.rstrip(b'\r\n')
             if rng.random() < 0.1:     # a first record longer than the block the alignment loop reads
                 c = b'"' + b'x' * rng.choice([4093, 4094, 4095, 4096, 8191, 9000]) + b'"' + sep + c
             den = rng.choice([2, 3, 4, 7, 10, 100, 1000])
